@@ -134,6 +134,13 @@ def install_fixture() -> None:
         return "pwned"
     m.shim = shim  # type: ignore[attr-defined]
     m.part = functools.partial(_trap_fn, 1)  # type: ignore[attr-defined]
+    from taskiq.state import TaskiqState
+
+    class AppState(TaskiqState):
+        def __missing__(self, key: str) -> Any:       # lazily creates resources: must not be triggered by a name walk
+            CALLS.append("state_factory")
+            return _TrapCls()
+    m.app = types.SimpleNamespace(state=AppState())  # type: ignore[attr-defined]
     FixExc.notify = staticmethod(_trap_fn)  # type: ignore[attr-defined]      # non-exception attributes reachable THROUGH an exception class
     FixExc.Meta = _TrapCls  # type: ignore[attr-defined]
     m.Outer = Outer  # type: ignore[attr-defined]
@@ -181,6 +188,7 @@ TARGETS: Dict[str, Any] = {
     "relmod": (".plugins", "PluginError", "notloaded"),
     "own_pkg_cls": ("taskiq", "ZeroMQBroker", "cls"), "own_pkg_func": ("taskiq", "gather", "func"),
     "nomodule_issubclass": (None, "issubclass", "nomodule"), "nomodule_isinstance": (None, "isinstance", "nomodule"),
+    "state_walk": (FIX, "app.state.db_pool", "missing"),        # an unset key of a TaskiqState subclass with a __missing__ factory
     "wrapped_func": (FIX, "shim", "func"), "exc_method": (FIX, "Exc.notify", "func"), "exc_inner_cls": (FIX, "Exc.Meta", "cls"),
     "partial_inst": (FIX, "part", "inst"),
     # objects that live in taskiq's own serialization module are no more trustworthy than any other non-exception
@@ -195,7 +203,7 @@ TARGETS: Dict[str, Any] = {
     "nomodule_field": (None, "SomeRemoteError", "nomodule"), "nomodule_dotted": (None, "a.b.C", "nomodule"),
     "nomodule_builtin_name": (None, "eval", "nomodule"),
 }
-ARGS = {"none": [], "one": ["x"], "two": [1, 2]}
+ARGS = {"none": [], "one": ["x"], "two": [1, 2], "big": ["x" * 6000, list(range(300))]}
 
 
 def build_payload(p: Optional[Dict[str, Any]]) -> Any:
@@ -308,6 +316,8 @@ def make_args(kind: str, salt: int) -> tuple:
         return ("ok", {3}, lambda: 1, _Unreprable(), 7)
     if kind == "const":
         return ("same for every node", 1)
+    if kind == "surrogate":
+        return ("file \udcff.txt", "a\ud83db", salt)          # text with lone surrogates (os.fsdecode of a non-UTF-8 name)
     if kind == "localscalar":
         # instances of function-local subclasses of scalar types: isinstance(int / str) but neither picklable nor importable
         import enum
@@ -332,7 +342,8 @@ def make_class(kind: str) -> Any:
     if kind == "builtin":
         return KeyError
     if kind == "builtin2":
-        return UnicodeError
+        _DYN[0] += 1
+        return UnicodeError if _DYN[0] % 2 else socket.gaierror        # an exception class of a standard-library module
     if kind in ("module", "attr"):
         return FixExc
     if kind == "nested":
@@ -469,13 +480,16 @@ def run_c19(case: Dict[str, Any]) -> Dict[str, Any]:
             stage = "load"
             dec = TaskiqResult.model_validate_json(s).error
         elif enc == "dict":
-            d = r.model_dump()
+            # what networked result backends do: the dumped model goes through the broker's serializer
+            from taskiq.serializers.json_serializer import JSONSerializer
+            wire = JSONSerializer().dumpb(r.model_dump())
             stage = "load"
-            dec = TaskiqResult.model_validate(d).error
+            dec = TaskiqResult.model_validate(JSONSerializer().loadb(wire)).error
         else:
-            b = pickle.dumps(r)
+            from taskiq.serializers.pickle import PickleSerializer
+            b = PickleSerializer().dumpb(r)
             stage = "load"
-            dec = pickle.loads(b).error  # noqa: S301
+            dec = PickleSerializer().loadb(b).error
     except BaseException as exc:  # noqa: BLE001
         res = f"raised_{stage}:{type(exc).__name__}"
     tree = project(dec, objs, nodes, case.get("root", 1), 0, enc in ("json", "dict")) if res == "ok" else {"n": 0, "nil": True}
